@@ -173,7 +173,7 @@ func check(c *core.Ctx, in []byte, scratch *[3][]byte, outcomes *[8]int64) {
 }
 
 func Run(c *core.Ctx) {
-	c.Rule = "all byte strings over a 19-byte alphabet (every wire type for fields 1,2; field 0; reserved types; 1-byte and continuation varint bytes) up to length L, each fed to ConsumeTag/ConsumeField/ConsumeFieldValue(8 types)/ConsumeGroup in three backings (exact capacity, 0xff guards, 0x00 guards) and compared with a recursive-descent reference grammar incl. first-defect error mapping; plus structured families (varint lengths x terminal bytes, length prefixes, group nesting depth around the limit, field-number boundaries); distinct = distinct inputs (by construction), non-trivial = non-empty"
+	c.Rule = "all byte strings over a 19-byte alphabet (every wire type for fields 1,2; field 0; reserved types; 1-byte and continuation varint bytes) up to length L, each fed to ConsumeTag/ConsumeField/ConsumeFieldValue(8 types)/ConsumeGroup in three backings (exact capacity, 0xff guards, 0x00 guards) and compared with a recursive-descent reference grammar incl. first-defect error mapping; plus structured families (varint lengths x terminal bytes, length prefixes, group nesting depth around the limit, group shapes = s sibling groups x chain of d nested groups x 3 placements with s,d around 5000 and 10000, field-number boundaries); distinct = distinct inputs (by construction), non-trivial = non-empty"
 	c.Assume("valid field number = 1..MaxInt32 as ConsumeTag documents (MessageSet)")
 	c.Assume("group nesting admitted by ConsumeFieldValue pinned at DefaultRecursionLimit+1 levels (statement says only 'within the recursion limit')")
 	L := core.Pick(c, 5, 7)
@@ -290,10 +290,51 @@ func Run(c *core.Ctx) {
 			fam++
 		}
 	}
+	// group shapes: s empty sibling groups and a chain of d nested groups inside
+	// one outer group, the siblings before the chain, at its bottom, or after
+	// it. The recursion budget is a property of the deepest path, not of the
+	// number of groups met on the way.
+	ns := []int{0, 1, 2, 4999, 5000, 9999, 10000, 10001, 10002}
+	nd := []int{0, 1, 2, 4999, 5000, 5001, 5002, 9998, 9999, 10000, 10001}
+	for _, sib := range ns {
+		for _, d := range nd {
+			for pos := 0; pos < 3; pos++ {
+				if (sib == 0 || d == 0) && pos > 0 {
+					continue
+				}
+				in := make([]byte, 0, 2+2*sib+2*d)
+				in = append(in, 0x0b)
+				sibs := func() {
+					for i := 0; i < sib; i++ {
+						in = append(in, 0x13, 0x14)
+					}
+				}
+				if pos == 0 {
+					sibs()
+				}
+				for i := 0; i < d; i++ {
+					in = append(in, 0x0b)
+				}
+				if pos == 1 {
+					sibs()
+				}
+				for i := 0; i < d; i++ {
+					in = append(in, 0x0c)
+				}
+				if pos == 2 {
+					sibs()
+				}
+				in = append(in, 0x0c)
+				check(c, in, &scratch, &out)
+				fam++
+			}
+		}
+	}
 	for i := range out {
 		oc[i].Add(out[i])
 	}
 	c.Sample("family: 0b x10001 0c x10001 (group nesting at the limit)")
+	c.Sample("family: 0b (13 14)x10001 0c (10001 sibling groups inside one group)")
 	total.Add(fam)
 	c.Eval(total.Load())
 	c.DistinctN(total.Load() - 1)
